@@ -5,6 +5,7 @@ import (
 	"encoding/json"
 	"fmt"
 	"io"
+	"os"
 	"runtime"
 	"runtime/debug"
 	"strings"
@@ -84,14 +85,66 @@ func (p *c10) Draw(t *rapid.T, tier string) *runner.Scenario {
 	lim := gen.Limits{MaxOps: 12, MaxPayload: 200, MaxTotal: 1500, NoCustom: true}
 	wl := gen.Workload(t, lim)
 	lay := DrawLayout(t, wl, rapid.Bool().Draw(t, "indexed"), rapid.IntRange(0, 3).Draw(t, "decorate") == 0)
-	img, err := refmcap.Encode(BuildSpec(wl, lay))
+	spec := BuildSpec(wl, lay)
+	how := pick(t, "how", "field", "field", "field", "field", "truncate", "dup", "splice", "opcode", "random", "valid", "stream", "stream")
+	if h := os.Getenv("VERIF_C10_HOW"); h != "" {
+		how = h // development aid: force one mutation kind
+	}
+	streamDesc := ""
+	if how == "stream" {
+		// a compressed chunk whose stored stream does not deliver what the chunk header
+		// declares; all pointers around it stay valid
+		var chunks []*refmcap.ChunkSpec
+		for i := range spec.Items {
+			if c := spec.Items[i].Chunk; c != nil && c.Compression != "" {
+				chunks = append(chunks, c)
+			}
+		}
+		if len(chunks) > 0 {
+			c := chunks[rapid.IntRange(0, len(chunks)-1).Draw(t, "stream_chunk")]
+			kind := pick(t, "stream_kind", "short", "short", "empty", "long", "zstd_fcs", "lz4_size")
+			val := hostile[rapid.IntRange(0, len(hostile)-1).Draw(t, "stream_value")]
+			switch kind {
+			case "zstd_fcs":
+				c.Compression = "zstd"
+			case "lz4_size":
+				c.Compression = "lz4"
+			}
+			comp := c.Compression
+			streamDesc = " " + comp + "." + kind
+			c.Stored = func(records []byte) []byte {
+				switch kind {
+				case "short":
+					out, _ := refmcap.Compress(comp, records[:len(records)/2])
+					return out
+				case "empty":
+					out, _ := refmcap.Compress(comp, nil)
+					return out
+				case "long":
+					out, _ := refmcap.Compress(comp, append(append([]byte{}, records...), records...))
+					return out
+				case "zstd_fcs":
+					// zstd frame: magic, descriptor 0xC0 (8-byte content size, no single segment),
+					// window descriptor, frame content size, one empty last raw block
+					fr := []byte{0x28, 0xB5, 0x2F, 0xFD, 0xC0, 0x00}
+					fr = binary.LittleEndian.AppendUint64(fr, val)
+					return append(fr, 0x01, 0x00, 0x00)
+				default:
+					// lz4 frame: magic, FLG with content-size bit, BD, content size, header checksum byte, end mark
+					fr := []byte{0x04, 0x22, 0x4D, 0x18, 0x68, 0x40}
+					fr = binary.LittleEndian.AppendUint64(fr, val)
+					return append(fr, 0x00, 0x00, 0x00, 0x00, 0x00)
+				}
+			}
+		}
+	}
+	img, err := refmcap.Encode(spec)
 	if err != nil {
 		img = append([]byte{}, refmcap.Magic...)
 	}
 	f, _ := refmcap.Decode(img, refmcap.DecodeOptions{})
-	how := pick(t, "how", "field", "field", "field", "field", "truncate", "dup", "splice", "opcode", "random", "valid")
 	in := append([]byte{}, img...)
-	desc := how
+	desc := how + streamDesc
 	type fref struct {
 		fl   refmcap.Field
 		base int64
@@ -435,7 +488,13 @@ func (p *c10) Check(sc *runner.Scenario, st *runner.Stats, pin string) *runner.V
 			}
 			continue
 		}
+		// unlimited lexer: one record buffer and one decompressed-chunk buffer, each
+		// below 2 GiB. Readers over a 64 KiB input: the compressed record buffer is
+		// bounded by the file size, leaving one decompressed-chunk buffer.
 		ceiling := uint64(2*(2<<30) + 64<<20)
+		if strings.HasPrefix(e.name, "reader/") {
+			ceiling = 2<<30 + 64<<20
+		}
 		if e.limited {
 			ceiling = 64<<10 + 2*(64<<10) + 64<<20
 		}
